@@ -1069,7 +1069,9 @@ class Node:
         app_id = message.header.application_id
         peer = self._find_connection_peer(conn)
 
-        if not hasattr(message, "destination_realm"):
+        # (the attribute of a typed request exists, and is None, when the AVP
+        # is absent - possible when validation of received requests is off)
+        if not isinstance(getattr(message, "destination_realm", None), bytes):
             self.logger.warning(
                 f"{conn} realm name not present in request "
                 f"{hex(message.header.hop_by_hop_identifier)}")
